@@ -22,9 +22,9 @@ ASSUMPTIONS = ['astx.snapshot reads every attrs field of every node (incl. data_
 OPS = (
     'str', 'hash', 'eq', 'queries', 'iterate', 'fully_typed', 'cast', 'but_same', 'but_changed', 'but_domain', 'replace_var_lit',
     'replace_self', 'simplify', 'split_and', 'refactor', 'this_to_var', 'var_to_this', 'negate', 'join', 'canonical', 'type_check',
-    'reconstruct', 'but_metadata', 'reparse', 'annotate',
+    'reconstruct', 'but_metadata', 'reparse', 'annotate', 'but_condition',
 )  # fmt: skip
-REWRITES = {'simplify', 'split_and', 'refactor', 'this_to_var', 'var_to_this', 'negate', 'join', 'canonical', 'replace_var_lit', 'replace_self', 'but_changed', 'but_domain'}
+REWRITES = {'but_condition', 'simplify', 'split_and', 'refactor', 'this_to_var', 'var_to_this', 'negate', 'join', 'canonical', 'replace_var_lit', 'replace_self', 'but_changed', 'but_domain'}
 
 
 def _is_boolish(n):
@@ -39,6 +39,7 @@ TARGETS = {
     'cast': lambda n: getattr(n, 'is_expression', False),
     'but_changed': lambda n: astx.cname(n) in ('HplBinaryOperator', 'HplUnaryOperator', 'HplQuantifier', 'HplRange', 'HplPattern', 'HplSimpleEvent', 'HplProperty', 'HplPredicateExpression', 'HplSet', 'HplFunctionCall', 'HplArrayAccess', 'HplScope'),
     'but_domain': lambda n: astx.cname(n) == 'HplQuantifier',
+    'but_condition': lambda n: astx.cname(n) == 'HplQuantifier',
     'replace_var_lit': lambda n: hasattr(n, 'replace_var_reference') and any(astx.cname(x) == 'HplVarReference' for x in astx.preorder(n)),
     'replace_self': lambda n: _exprish(n),
     'simplify': _exprish,
@@ -132,7 +133,9 @@ class Pool:
             res = None
         if res is not None:
             results = [r for r in (res if isinstance(res, (list, tuple)) else [res]) if hasattr(r, '__attrs_attrs__') and r is not node]
+            # first the plain invariant (so that an in-place change is reported as such), then the metadata probes;
             # results of one call may share new nodes with each other: all are probed before any joins the pool
+            self.check_invariant()
             for r in results:
                 self.probe_metadata(name, r, known)
             for r in results:
@@ -228,6 +231,15 @@ class Pool:
             if astx.cname(node) == 'HplQuantifier':
                 dom = [HplRange(HplLiteral.number(0), HplLiteral.number(3)), HplSet((HplLiteral.number(1), HplLiteral.number(2))), HplSet((HplLiteral('"a"', '"a"'),))][x % 3]
                 return self._checked_but(node, {'domain': dom})
+            return None
+        if name == 'but_condition':
+            # the new condition is a sub-tree of an existing tree (of this very quantifier's condition first) that mentions
+            # the bound variable - a bare accessor, an operand, a nested operator: constructors must not re-type it in place
+            if astx.cname(node) == 'HplQuantifier':
+                subs = [n for n in astx.preorder(node.condition) if n is not node.condition and getattr(n, 'is_expression', False) and n.data_type.can_be_bool and astx.mentions_var(n, node.variable)]
+                subs += [n for it in self.items for n in astx.preorder(it[0]) if getattr(n, 'is_expression', False) and n.data_type.can_be_bool and astx.mentions_var(n, node.variable) and n is not node.condition][:6]
+                if subs:
+                    return self._checked_but(node, {'condition': subs[x % len(subs)]})
             return None
         if name == 'replace_var_lit':
             from hpl.ast import HplLiteral
@@ -424,6 +436,8 @@ def new_case(tape):
 QUANT_SEEDS = (
     ('predicate', '{ forall x in xs: ((@x = a) and (b > 0)) }'),
     ('predicate', '{ forall i in {@v, 1}: (@i = a) }'),
+    ('predicate', '{ forall i in [0 to 3]: (flags[@i] = ok) }'),
+    ('predicate', '{ exists k in ks: (m.bs[@k] or @k > lim) }'),
     ('predicate', '{ sum({x, y}) > 0 and exists k in ks: @k in {x, y} }'),
     ('property', 'after p as P: (a {x > @P.x} or b) causes c {forall i in xs: @i > 0} within 100 ms'),
 )
